@@ -16,14 +16,16 @@ def records(ctx):
 
     def add(op, inp, out, site):
         recs.append({'id': '%s-%d' % (op, next(nid)), 'op': op, 'in': inp, 'out': out, 'site': site})
-    n = 50 if ctx.quick else 400
+    n = 56 if ctx.quick else 420
     dims = {2: 6, 3: 4, 4: 3, 5: 2, 6: 2}
     for k in range(n):
-        ndim = rng.choice([2, 2, 3, 3, 4, 5, 6])
+        # every dimension count, with and without labels, folded and unfolded: cycled deterministically
+        ndim = [2, 3, 4, 5, 6, 2, 3][k % 7]
         sh = rand_shape(rng, ndim, 1, dims[ndim])
-        folded = rng.random() < 0.3
+        folded = (k // 7) % 3 == 1
+        labels = rng.sample(['YRI', 'CEU', 'CHB', 'pop4', 'p5', 'six'], ndim) if k % 2 == 0 else None
         # bookkeeping on spectra without internal masks (the statement's "unmasked data"); corners masked or not
-        fs = rand_spectrum(rng, sh, folded=folded, labels=rand_labels(rng, ndim), mask_mode=rng.choice(['none', 'corners']))
+        fs = rand_spectrum(rng, sh, folded=folded, labels=labels, mask_mode=['none', 'corners'][(k // 2) % 2])
         P = ndim
         over = sorted(rng.sample(range(P), rng.randint(1, P - 1)))
         over_arg = list(over)
